@@ -186,16 +186,19 @@ theorem shorter_call (st : ShorterState) (m : Method) (s : Shape) (aw : Bool) (r
       simp only [bind_ok, pure_eq_ok]
       rw [shorterShape_body_call s f aw r d ht, hb, bodyOf_dropLast]
 
-/-- subscription methods (the `async for` as client.py builds it: a list body) -/
-theorem shorter_sub (st : ShorterState) (m : Method) (s : Shape) (d cls : String) (o : Nat) (a : Ex)
-    (hb : m.body = bodyOf s) (ht : s.tail = .sub d true o) (hr : m.returns = some (.sub a (.name cls))) :
+/-- subscription methods (`l` = the `async for` body is a list, as client.py builds it; the bare `Expr`
+    body ShorterResults itself leaves behind makes a second application die in `len(stmt.body)`) -/
+theorem shorter_sub_any (st : ShorterState) (m : Method) (s : Shape) (d cls : String) (l : Bool) (o : Nat) (a : Ex)
+    (hb : m.body = bodyOf s) (ht : s.tail = .sub d l o) (hr : m.returns = some (.sub a (.name cls))) :
     shorterModifyMethod st m =
       (nodeAndClass st.classDict cls >>= fun x =>
         match x with
         | none => pure (st, m)
         | some (node, classes, f) =>
-          pure (shorterUpdateImports st m.name classes,
-            { m with returns := some (.sub (.name "AsyncIterator") node), body := bodyOf (shorterShape s f) })) := by
+          if l then
+            pure (shorterUpdateImports st m.name classes,
+              { m with returns := some (.sub (.name "AsyncIterator") node), body := bodyOf (shorterShape s f) })
+          else throw "TypeError") := by
   unfold shorterModifyMethod
   rw [hb, bodyOf_getLast]
   simp only [lastStmt, ht]
@@ -208,8 +211,25 @@ theorem shorter_sub (st : ShorterState) (m : Method) (s : Shape) (d cls : String
     | none => rfl
     | some t =>
       obtain ⟨node, classes, f⟩ := t
-      simp only [bind_ok, pure_eq_ok, Bool.not_true, Bool.false_eq_true, ↓reduceIte]
-      rw [shorterShape_body_sub s f d true o ht, hb, bodyOf_dropLast]
+      cases l with
+      | false => rfl
+      | true =>
+        simp only [bind_ok, pure_eq_ok, Bool.not_true, Bool.false_eq_true, ↓reduceIte]
+        rw [shorterShape_body_sub s f d true o ht, hb, bodyOf_dropLast]
+
+theorem shorter_sub (st : ShorterState) (m : Method) (s : Shape) (d cls : String) (o : Nat) (a : Ex)
+    (hb : m.body = bodyOf s) (ht : s.tail = .sub d true o) (hr : m.returns = some (.sub a (.name cls))) :
+    shorterModifyMethod st m =
+      (nodeAndClass st.classDict cls >>= fun x =>
+        match x with
+        | none => pure (st, m)
+        | some (node, classes, f) =>
+          pure (shorterUpdateImports st m.name classes,
+            { m with returns := some (.sub (.name "AsyncIterator") node), body := bodyOf (shorterShape s f) })) := by
+  rw [shorter_sub_any st m s d cls true o a hb ht hr]
+  cases nodeAndClass st.classDict cls with
+  | error e => rfl
+  | ok x => cases x <;> rfl
 
 /-- a return annotation that is not a plain class name (for instance the string constant
     ClientForwardRefs leaves behind) makes ShorterResults skip the method -/
@@ -1016,5 +1036,847 @@ theorem inert_no_kind (ps : List PState) (h : Inert ps) :
     rcases h p hp with rfl | rfl <;> simp [PState.isShorter, PState.isExtract, PState.isFwd]
 
 theorem outcome_map_id {α} (o : Outcome α) : o.map (fun a => a) = o := by cases o <;> rfl
+
+
+/-! ### what ANY chain of bundled plugins can do to a method of the generated shape -/
+
+/-- one rewriting step on a shape: a projection (ShorterResults) or an in-body import (ClientForwardRefs) -/
+inductive ShapeStep : Shape → Shape → Prop where
+  | proj (s : Shape) (f : String) : ShapeStep s (shorterShape s f)
+  | imp (s : Shape) (i : ImportFrom) : ShapeStep s (withImport s i)
+
+inductive ShapeEvolves : Shape → Shape → Prop where
+  | refl (s : Shape) : ShapeEvolves s s
+  | step {s t u : Shape} : ShapeEvolves s t → ShapeStep t u → ShapeEvolves s u
+
+theorem ShapeEvolves.trans {s t u : Shape} (h1 : ShapeEvolves s t) (h2 : ShapeEvolves t u) : ShapeEvolves s u := by
+  induction h2 with
+  | refl => exact h1
+  | step _ hs ih => exact .step ih hs
+
+def sameKind : Tail → Tail → Prop
+  | .call aw r d, .call aw' r' d' => aw = aw' ∧ r = r' ∧ d = d'
+  | .sub d _ _, .sub d' _ _ => d = d'
+  | _, _ => False
+
+theorem sameKind_refl (t : Tail) : sameKind t t := by cases t <;> simp [sameKind]
+
+theorem sameKind_trans {a b c : Tail} (h1 : sameKind a b) (h2 : sameKind b c) : sameKind a c := by
+  cases a <;> cases b <;> cases c <;> simp_all [sameKind]
+
+/-- what evolution cannot touch: the operation source, the operation name, the variables, the
+    validated class, the kind of method; projections are only appended, imports only prepended -/
+theorem ShapeEvolves.preserves {s s' : Shape} (h : ShapeEvolves s s') :
+    s'.op = s.op ∧ s'.opName = s.opName ∧ s'.variables = s.variables ∧ s'.varsVar = s.varsVar ∧
+    s'.retClass = s.retClass ∧ s'.kwargs = s.kwargs ∧ sameKind s.tail s'.tail ∧
+    (∃ fs, s'.proj = s.proj ++ fs) ∧ (∃ is, s'.imports = is ++ s.imports) := by
+  induction h with
+  | refl => exact ⟨rfl, rfl, rfl, rfl, rfl, rfl, sameKind_refl _, ⟨[], by simp⟩, ⟨[], by simp⟩⟩
+  | step _ hs ih =>
+    obtain ⟨h1, h2, h3, h4, h5, h6, h7, ⟨fs, h8⟩, ⟨is, h9⟩⟩ := ih
+    cases hs with
+    | proj f =>
+      rename_i t _
+      refine ⟨h1, h2, h3, h4, h5, h6, ?_, ⟨fs ++ [f], ?_⟩, ⟨is, h9⟩⟩
+      · apply sameKind_trans h7
+        unfold shorterShape
+        cases t.tail <;> simp [sameKind]
+      · simp [shorterShape, h8]
+    | imp i =>
+      exact ⟨h1, h2, h3, h4, h5, h6, h7, ⟨fs, h8⟩, ⟨i :: is, by simp [withImport, h9]⟩⟩
+
+/-- ShorterResults on a method of the generated shape, any state, any return annotation: the method
+    is returned unchanged or with one more projection -/
+theorem shorter_step_shape (st st' : ShorterState) (m m' : Method) (s : Shape) (hb : m.body = bodyOf s)
+    (h : shorterModifyMethod st m = .ok (st', m')) :
+    m'.name = m.name ∧ m'.args = m.args ∧ ∃ s', m'.body = bodyOf s' ∧ (s' = s ∨ ∃ f, s' = shorterShape s f) := by
+  have same : ∀ {a b : ShorterState} {x y : Method}, (pure (a, x) : M (ShorterState × Method)) = .ok (b, y) → y = x := by
+    intro a b x y hh; simp [pure, Except.pure] at hh; exact hh.2.symm
+  cases ht : s.tail with
+  | call aw r d =>
+    by_cases hname : ∃ id, m.returns = some (.name id)
+    · obtain ⟨id, hret⟩ := hname
+      rw [shorter_call st m s aw r d id hb ht hret] at h
+      cases hn : nodeAndClass st.classDict id with
+      | error e => rw [hn] at h; cases h
+      | ok x =>
+        rw [hn] at h
+        cases x with
+        | none => have := same h; subst this; exact ⟨rfl, rfl, s, hb, .inl rfl⟩
+        | some t =>
+          obtain ⟨node, classes, f⟩ := t
+          simp [bind_ok, pure_eq_ok] at h
+          obtain ⟨_, rfl⟩ := h
+          exact ⟨rfl, rfl, shorterShape s f, rfl, .inr ⟨f, rfl⟩⟩
+    · rw [shorter_skips_non_name st m s aw r d hb ht (fun id hid => hname ⟨id, hid⟩)] at h
+      have := same h; subst this; exact ⟨rfl, rfl, s, hb, .inl rfl⟩
+  | sub d l o =>
+    by_cases hname : ∃ a id, m.returns = some (.sub a (.name id))
+    · obtain ⟨a, id, hret⟩ := hname
+      rw [shorter_sub_any st m s d id l o a hb ht hret] at h
+      cases hn : nodeAndClass st.classDict id with
+      | error e => rw [hn] at h; cases h
+      | ok x =>
+        rw [hn] at h
+        cases x with
+        | none => have := same h; subst this; exact ⟨rfl, rfl, s, hb, .inl rfl⟩
+        | some t =>
+          obtain ⟨node, classes, f⟩ := t
+          cases l with
+          | false => simp [bind_ok, throw, throwThe, MonadExceptOf.throw] at h
+          | true =>
+            simp [bind_ok, pure_eq_ok] at h
+            obtain ⟨_, rfl⟩ := h
+            exact ⟨rfl, rfl, shorterShape s f, rfl, .inr ⟨f, rfl⟩⟩
+    · rw [shorter_skips_non_name_sub st m s d l o hb ht (fun a id hid => hname ⟨a, id, hid⟩)] at h
+      have := same h; subst this; exact ⟨rfl, rfl, s, hb, .inl rfl⟩
+
+/-- ClientForwardRefs on a method of the generated shape, any state: the body is returned unchanged
+    or with one import statement in front -/
+theorem fwd_step_shape (st st' : FwdState) (m m' : Method) (s : Shape) (hb : m.body = bodyOf s)
+    (h : fwdMethod st m = .ok (st', m')) :
+    m'.name = m.name ∧ ∃ s', m'.body = bodyOf s' ∧ (s' = s ∨ ∃ i, s' = withImport s i) := by
+  unfold fwdMethod at h
+  simp only [bind_ok, pure_eq_ok] at h
+  rw [hb, bodyOf_getLast] at h
+  simp only at h
+  cases hi : fwdImportClass (lastStmt s) with
+  | none =>
+    simp only [hi, Except.ok.injEq, Prod.mk.injEq] at h
+    obtain ⟨_, rfl⟩ := h
+    exact ⟨rfl, s, rfl, .inl rfl⟩
+  | some cls =>
+    simp only [hi] at h
+    split at h
+    · cases h
+    · rename_i src hsrc
+      simp only [Except.ok.injEq, Prod.mk.injEq] at h
+      obtain ⟨_, rfl⟩ := h
+      refine ⟨rfl, withImport s { module := some src, names := [(cls, none)], level := 0 }, ?_, .inr ⟨_, rfl⟩⟩
+      simp only
+      rw [bodyOf_withImport]
+
+
+/-! ### lifting method steps to class bodies -/
+
+inductive ItemsRel (R : Method → Method → Prop) : List ClassItem → List ClassItem → Prop where
+  | nil : ItemsRel R [] []
+  | method {m m' : Method} {rest rest' : List ClassItem} :
+      R m m' → ItemsRel R rest rest' → ItemsRel R (.method m :: rest) (.method m' :: rest')
+  | other {s : Simple} {rest rest' : List ClassItem} :
+      ItemsRel R rest rest' → ItemsRel R (.stmt s :: rest) (.stmt s :: rest')
+
+theorem ItemsRel.refl {R : Method → Method → Prop} (hR : ∀ m, R m m) : ∀ items, ItemsRel R items items
+  | [] => .nil
+  | .method m :: rest => .method (hR m) (ItemsRel.refl hR rest)
+  | .stmt s :: rest => .other (ItemsRel.refl hR rest)
+
+theorem ItemsRel.trans {R : Method → Method → Prop} (hR : ∀ a b c, R a b → R b c → R a c) :
+    ∀ {x y z : List ClassItem}, ItemsRel R x y → ItemsRel R y z → ItemsRel R x z := by
+  intro x y z h1
+  induction h1 generalizing z with
+  | nil => intro h2; cases h2; exact .nil
+  | method hm _ ih => intro h2; cases h2 with | method hm' hr => exact .method (hR _ _ _ hm hm') (ih hr)
+  | other _ ih => intro h2; cases h2 with | other hr => exact .other (ih hr)
+
+theorem mapMethodsM_rel {σ : Type} (f : σ → Method → M (σ × Method)) (R : Method → Method → Prop)
+    (hf : ∀ st st' m m', f st m = .ok (st', m') → R m m') :
+    ∀ (items : List ClassItem) (st st' : σ) (items' : List ClassItem),
+      mapMethodsM f st items = .ok (st', items') → ItemsRel R items items' := by
+  intro items
+  induction items with
+  | nil =>
+    intro st st' items' h
+    simp [mapMethodsM, pure, Except.pure] at h
+    obtain ⟨_, h2⟩ := h
+    subst h2; exact ItemsRel.nil
+  | cons it rest ih =>
+    intro st st' items' h
+    cases it with
+    | method m =>
+      simp only [mapMethodsM] at h
+      cases hfm : f st m with
+      | error e => rw [hfm] at h; cases h
+      | ok r =>
+        rw [hfm] at h
+        simp only [bind_ok] at h
+        cases hrest : mapMethodsM f r.1 rest with
+        | error e => rw [hrest] at h; cases h
+        | ok r2 =>
+          rw [hrest] at h
+          simp only [bind_ok, pure_eq_ok, Except.ok.injEq, Prod.mk.injEq] at h
+          rw [← h.2]
+          exact .method (hf st r.1 m r.2 (by rw [hfm])) (ih r.1 r2.1 r2.2 (by rw [hrest]))
+    | stmt s =>
+      simp only [mapMethodsM] at h
+      cases hrest : mapMethodsM f st rest with
+      | error e => rw [hrest] at h; cases h
+      | ok r2 =>
+        rw [hrest] at h
+        simp only [bind_ok, pure_eq_ok, Except.ok.injEq, Prod.mk.injEq] at h
+        rw [← h.2]
+        exact .other (ih st r2.1 r2.2 (by rw [hrest]))
+
+/-- a method evolves by ShorterResults / ClientForwardRefs steps -/
+inductive MethodEvolves : Method → Method → Prop where
+  | refl (m : Method) : MethodEvolves m m
+  | shorter {m m' m'' : Method} (st st' : ShorterState) :
+      MethodEvolves m m' → shorterModifyMethod st m' = .ok (st', m'') → MethodEvolves m m''
+  | fwd {m m' m'' : Method} (st st' : FwdState) :
+      MethodEvolves m m' → fwdMethod st m' = .ok (st', m'') → MethodEvolves m m''
+
+theorem MethodEvolves.trans {a b c : Method} (h1 : MethodEvolves a b) (h2 : MethodEvolves b c) : MethodEvolves a c := by
+  induction h2 with
+  | refl => exact h1
+  | shorter st st' _ hs ih => exact .shorter st st' ih hs
+  | fwd st st' _ hs ih => exact .fwd st st' ih hs
+
+/-- the semantic content of method evolution on a method of the generated shape -/
+theorem MethodEvolves.shape {m m' : Method} (h : MethodEvolves m m') (s : Shape) (hb : m.body = bodyOf s) :
+    m'.name = m.name ∧ ∃ s', m'.body = bodyOf s' ∧ ShapeEvolves s s' := by
+  induction h with
+  | refl => exact ⟨rfl, s, hb, .refl s⟩
+  | shorter st st' _ hs ih =>
+    obtain ⟨hn, s1, hb1, he1⟩ := ih
+    obtain ⟨hn2, _, s2, hb2, hor⟩ := shorter_step_shape st st' _ _ s1 hb1 hs
+    refine ⟨hn2.trans hn, s2, hb2, ?_⟩
+    rcases hor with rfl | ⟨f, rfl⟩
+    · exact he1
+    · exact .step he1 (.proj s1 f)
+  | fwd st st' _ hs ih =>
+    obtain ⟨hn, s1, hb1, he1⟩ := ih
+    obtain ⟨hn2, s2, hb2, hor⟩ := fwd_step_shape st st' _ _ s1 hb1 hs
+    refine ⟨hn2.trans hn, s2, hb2, ?_⟩
+    rcases hor with rfl | ⟨i, rfl⟩
+    · exact he1
+    · exact .step he1 (.imp s1 i)
+
+def ClassRel (c c' : ClassDef) : Prop :=
+  c'.name = c.name ∧ c'.bases = c.bases ∧ ItemsRel MethodEvolves c.body c'.body
+
+theorem ClassRel.refl (c : ClassDef) : ClassRel c c := ⟨rfl, rfl, ItemsRel.refl MethodEvolves.refl _⟩
+
+theorem ClassRel.trans {a b c : ClassDef} (h1 : ClassRel a b) (h2 : ClassRel b c) : ClassRel a c :=
+  ⟨h2.1.trans h1.1, h2.2.1.trans h1.2.1, ItemsRel.trans (R := MethodEvolves) (fun _ _ _ hab hbc => MethodEvolves.trans hab hbc) h1.2.2 h2.2.2⟩
+
+
+/-! ### the client module as `ClientGenerator.generate` assembles it: imports, `gql`, the class -/
+
+def isImp : Top → Bool
+  | .simple (.importFrom _) => true
+  | .simple (.import_ _) => true
+  | _ => false
+
+def NoClass (pre : List Top) : Prop := ∀ t ∈ pre, t.classDef? = none
+def HasImp (pre : List Top) : Prop := ∃ t ∈ pre, isImp t = true
+
+/-- `generate_module(body=self._imports + [gql_func, self._class_def])`, possibly after plugins put
+    further imports / an `if TYPE_CHECKING:` block in front of `gql` -/
+def ClientInv (M : Module) (c : ClassDef) : Prop :=
+  ∃ pre g, M.body = pre ++ [.funcDef g, .classDef c] ∧ NoClass pre ∧ HasImp pre
+
+theorem noClass_cons {t : Top} {pre : List Top} (h : NoClass (t :: pre)) : t.classDef? = none ∧ NoClass pre :=
+  ⟨h t (by simp), fun u hu => h u (by simp [hu])⟩
+
+theorem firstClass_pre (g : Method) (c : ClassDef) : ∀ (pre : List Top), NoClass pre →
+    ({ body := pre ++ [.funcDef g, .classDef c] } : Module).firstClass? = some c := by
+  intro pre
+  induction pre with
+  | nil => intro _; simp [Module.firstClass?, List.findSome?, Top.classDef?]
+  | cons t rest ih =>
+    intro h
+    obtain ⟨h1, h2⟩ := noClass_cons h
+    have := ih h2
+    simp only [Module.firstClass?, List.cons_append, List.findSome?_cons, h1] at this ⊢
+    exact this
+
+theorem firstClass_of_inv {M : Module} {c : ClassDef} (h : ClientInv M c) : M.firstClass? = some c := by
+  obtain ⟨pre, g, hb, hn, _⟩ := h
+  have := firstClass_pre g c pre hn
+  cases M
+  simp only at hb
+  subst hb
+  exact this
+
+theorem mapFirstClassM_pre {σ : Type} (f : σ → ClassDef → M (σ × ClassDef)) (g : Method) (c : ClassDef) :
+    ∀ (pre : List Top) (st : σ), NoClass pre →
+      mapFirstClassM f st (pre ++ [.funcDef g, .classDef c]) =
+        (f st c >>= fun r => pure (r.1, pre ++ [.funcDef g, .classDef r.2])) := by
+  intro pre
+  induction pre with
+  | nil =>
+    intro st _
+    simp only [List.nil_append, mapFirstClassM]
+    cases f st c with
+    | error e => rfl
+    | ok r => rfl
+  | cons t rest ih =>
+    intro st h
+    obtain ⟨h1, h2⟩ := noClass_cons h
+    cases t with
+    | classDef cd => simp [Top.classDef?] at h1
+    | simple sm =>
+      simp only [List.cons_append, mapFirstClassM, ih st h2]
+      cases f st c with
+      | error e => rfl
+      | ok r => rfl
+    | funcDef fm =>
+      simp only [List.cons_append, mapFirstClassM, ih st h2]
+      cases f st c with
+      | error e => rfl
+      | ok r => rfl
+    | ifStmt a b o =>
+      simp only [List.cons_append, mapFirstClassM, ih st h2]
+      cases f st c with
+      | error e => rfl
+      | ok r => rfl
+
+/-- the import-extending loop of ShorterResults touches import statements only -/
+theorem shorterExtend_pre (g : Method) (c : ClassDef) : ∀ (pre : List Top) (ext : List (String × List String)), NoClass pre →
+    ∃ ext' pre', shorterExtendExisting ext (pre ++ [.funcDef g, .classDef c]) = (ext', pre' ++ [.funcDef g, .classDef c]) ∧
+      NoClass pre' ∧ (HasImp pre → HasImp pre') := by
+  intro pre
+  induction pre with
+  | nil =>
+    intro ext _
+    exact ⟨ext, [], by simp [shorterExtendExisting], fun t ht => by simp at ht, fun h => h⟩
+  | cons t rest ih =>
+    intro ext h
+    obtain ⟨h1, h2⟩ := noClass_cons h
+    cases t with
+    | classDef cd => simp [Top.classDef?] at h1
+    | funcDef fm =>
+      obtain ⟨ext', pre', he, hn, hi⟩ := ih ext h2
+      refine ⟨ext', .funcDef fm :: pre', by simp [shorterExtendExisting, he], ?_, ?_⟩
+      · intro u hu; rcases List.mem_cons.mp hu with rfl | hu'; · rfl
+        exact hn u hu'
+      · rintro ⟨u, hu, hiu⟩
+        rcases List.mem_cons.mp hu with rfl | hu'
+        · simp [isImp] at hiu
+        · obtain ⟨w, hw, hiw⟩ := hi ⟨u, hu', hiu⟩; exact ⟨w, by simp [hw], hiw⟩
+    | ifStmt a b o =>
+      obtain ⟨ext', pre', he, hn, hi⟩ := ih ext h2
+      refine ⟨ext', .ifStmt a b o :: pre', by simp [shorterExtendExisting, he], ?_, ?_⟩
+      · intro u hu; rcases List.mem_cons.mp hu with rfl | hu'; · rfl
+        exact hn u hu'
+      · rintro ⟨u, hu, hiu⟩
+        rcases List.mem_cons.mp hu with rfl | hu'
+        · simp [isImp] at hiu
+        · obtain ⟨w, hw, hiw⟩ := hi ⟨u, hu', hiu⟩; exact ⟨w, by simp [hw], hiw⟩
+    | simple sm =>
+      have keep : ∀ (e : List (String × List String)) (t' : Top), t'.classDef? = none → isImp t' = isImp (.simple sm) →
+          (∃ ext' pre', shorterExtendExisting e (rest ++ [.funcDef g, .classDef c]) = (ext', pre' ++ [.funcDef g, .classDef c]) ∧
+            NoClass pre' ∧ (HasImp rest → HasImp pre')) →
+          ∃ ext' pre', (let r := shorterExtendExisting e (rest ++ [.funcDef g, .classDef c]); (r.1, t' :: r.2)) =
+              (ext', pre' ++ [.funcDef g, .classDef c]) ∧ NoClass pre' ∧ (HasImp (.simple sm :: rest) → HasImp pre') := by
+        intro e t' ht' hit' ⟨ext', pre', he, hn, hi⟩
+        refine ⟨ext', t' :: pre', by simp [he], ?_, ?_⟩
+        · intro u hu; rcases List.mem_cons.mp hu with rfl | hu'; · exact ht'
+          exact hn u hu'
+        · rintro ⟨u, hu, hiu⟩
+          rcases List.mem_cons.mp hu with rfl | hu'
+          · exact ⟨t', by simp, by rw [hit']; exact hiu⟩
+          · obtain ⟨w, hw, hiw⟩ := hi ⟨u, hu', hiu⟩; exact ⟨w, by simp [hw], hiw⟩
+      cases sm with
+      | importFrom i =>
+        simp only [List.cons_append, shorterExtendExisting]
+        cases hm : i.module with
+        | none => exact keep ext _ rfl rfl (ih ext h2)
+        | some mname =>
+          simp only
+          cases hl : alookup mname ext with
+          | none => exact keep ext _ rfl rfl (ih ext h2)
+          | some extra => exact keep (aerase mname ext) _ rfl rfl (ih (aerase mname ext) h2)
+      | import_ d => simp only [List.cons_append, shorterExtendExisting]; exact keep ext _ rfl rfl (ih ext h2)
+      | assign a b => simp only [List.cons_append, shorterExtendExisting]; exact keep ext _ rfl rfl (ih ext h2)
+      | assignList a b => simp only [List.cons_append, shorterExtendExisting]; exact keep ext _ rfl rfl (ih ext h2)
+      | annAssign a b v => simp only [List.cons_append, shorterExtendExisting]; exact keep ext _ rfl rfl (ih ext h2)
+      | ret v => simp only [List.cons_append, shorterExtendExisting]; exact keep ext _ rfl rfl (ih ext h2)
+      | expr v => simp only [List.cons_append, shorterExtendExisting]; exact keep ext _ rfl rfl (ih ext h2)
+      | other a b => simp only [List.cons_append, shorterExtendExisting]; exact keep ext _ rfl rfl (ih ext h2)
+
+
+theorem noClass_append {a b : List Top} (ha : NoClass a) (hb : NoClass b) : NoClass (a ++ b) := by
+  intro t ht
+  rcases List.mem_append.mp ht with h | h
+  · exact ha t h
+  · exact hb t h
+
+theorem hasImp_append_right {a b : List Top} (hb : HasImp b) : HasImp (a ++ b) := by
+  obtain ⟨t, ht, hi⟩ := hb; exact ⟨t, by simp [ht], hi⟩
+
+/-- ShorterResults on the client module: the class keeps its place, its methods evolve -/
+theorem shorter_module_inv (st st' : ShorterState) (M M' : Module) (c : ClassDef) (hinv : ClientInv M c)
+    (h : shorterClientModule st M = .ok (st', M')) : ∃ c', ClientInv M' c' ∧ ClassRel c c' := by
+  have hfc := firstClass_of_inv hinv
+  obtain ⟨pre, g, hb, hn, hi⟩ := hinv
+  unfold shorterClientModule at h
+  rw [hfc] at h
+  simp only at h
+  rw [hb, mapFirstClassM_pre _ g c pre st hn] at h
+  cases hm : mapMethodsM shorterModifyMethod st c.body with
+  | error e => simp [hm, bind, Except.bind] at h
+  | ok r =>
+    have hrel : ItemsRel MethodEvolves c.body r.2 :=
+      mapMethodsM_rel shorterModifyMethod MethodEvolves
+        (fun a b m m' hs => .shorter a b (.refl m) hs) c.body st r.1 r.2 (by rw [hm])
+    have hcr : ClassRel c { c with body := r.2 } := ⟨rfl, rfl, hrel⟩
+    simp only [hm, bind_ok, pure_eq_ok] at h
+    split at h
+    · simp only [Except.ok.injEq, Prod.mk.injEq] at h
+      obtain ⟨_, rfl⟩ := h
+      exact ⟨_, ⟨pre, g, rfl, hn, hi⟩, hcr⟩
+    · obtain ⟨ext', pre', he, hn', hi'⟩ := shorterExtend_pre g { c with body := r.2 } pre r.1.extendedImports hn
+      simp only [he, Except.ok.injEq, Prod.mk.injEq] at h
+      obtain ⟨_, rfl⟩ := h
+      refine ⟨_, ⟨(ext'.map (fun x => Top.simple (.importFrom { module := some x.1, names := x.2.map (fun n => (n, none)), level := 0 }))).reverse ++ pre',
+        g, by simp [List.append_assoc], ?_, hasImp_append_right (hi' hi)⟩, hcr⟩
+      apply noClass_append _ hn'
+      intro t ht
+      simp only [List.mem_reverse, List.mem_map] at ht
+      obtain ⟨x, _, rfl⟩ := ht
+      rfl
+
+/-- ExtractOperations on the client module: one more import in front -/
+theorem extract_module_inv (st : ExtractState) (M : Module) (c : ClassDef) (hinv : ClientInv M c) :
+    ClientInv { body := extractImport st :: M.body } c := by
+  obtain ⟨pre, g, hb, hn, hi⟩ := hinv
+  refine ⟨extractImport st :: pre, g, by simp [hb], ?_, ?_⟩
+  · intro t ht
+    rcases List.mem_cons.mp ht with rfl | h
+    · rfl
+    · exact hn t h
+  · obtain ⟨t, ht, hit⟩ := hi; exact ⟨t, by simp [ht], hit⟩
+
+
+/-! ### ClientForwardRefs on the client module: the import scan -/
+
+/-- one iteration of the loop of `_update_existing_imports` -/
+def scanStep (drop : List String) (acc : List Top × Nat) (i : Nat) (t : Top) : List Top × Nat :=
+  match t with
+  | .simple (.import_ _) => (acc.1 ++ [t], i)
+  | .simple (.importFrom imp) =>
+    if (imp.names.filter (fun n => !drop.contains n.1)).isEmpty then (acc.1, i)
+    else (acc.1 ++ [.simple (.importFrom { imp with names := imp.names.filter (fun n => !drop.contains n.1) })], i)
+  | _ => acc
+
+theorem scan_cons (drop : List String) (t : Top) (rest : List Top) (i : Nat) (acc : List Top × Nat) :
+    fwdScanImports drop (t :: rest) i acc = fwdScanImports drop rest (i + 1) (scanStep drop acc i t) := by
+  obtain ⟨kept, last⟩ := acc
+  cases t with
+  | simple sm =>
+    cases sm <;> simp only [fwdScanImports, scanStep]
+    split <;> rfl
+  | classDef _ => simp only [fwdScanImports, scanStep]
+  | funcDef _ => simp only [fwdScanImports, scanStep]
+  | ifStmt _ _ _ => simp only [fwdScanImports, scanStep]
+
+theorem scanStep_nonimp (drop : List String) (acc : List Top × Nat) (i : Nat) (t : Top) (h : isImp t = false) :
+    scanStep drop acc i t = acc := by
+  cases t with
+  | simple sm => cases sm <;> simp_all [isImp, scanStep]
+  | classDef _ => rfl
+  | funcDef _ => rfl
+  | ifStmt _ _ _ => rfl
+
+theorem scanStep_imp (drop : List String) (acc : List Top × Nat) (i : Nat) (t : Top) (h : isImp t = true) :
+    (scanStep drop acc i t).2 = i ∧ ∀ u ∈ (scanStep drop acc i t).1, u ∈ acc.1 ∨ isImp u = true := by
+  cases t with
+  | simple sm =>
+    cases sm with
+    | importFrom imp =>
+      simp only [scanStep]
+      split
+      · exact ⟨rfl, fun u hu => .inl hu⟩
+      · refine ⟨rfl, fun u hu => ?_⟩
+        rcases List.mem_append.mp hu with h1 | h1
+        · exact .inl h1
+        · simp only [List.mem_singleton] at h1; subst h1; exact .inr (by simp [isImp])
+    | import_ d =>
+      refine ⟨rfl, fun u hu => ?_⟩
+      simp only [scanStep] at hu
+      rcases List.mem_append.mp hu with h1 | h1
+      · exact .inl h1
+      · simp at h1; subst h1; exact .inr rfl
+    | assign _ _ => simp [isImp] at h
+    | assignList _ _ => simp [isImp] at h
+    | annAssign _ _ _ => simp [isImp] at h
+    | ret _ => simp [isImp] at h
+    | expr _ => simp [isImp] at h
+    | other _ _ => simp [isImp] at h
+  | classDef _ => simp [isImp] at h
+  | funcDef _ => simp [isImp] at h
+  | ifStmt _ _ _ => simp [isImp] at h
+
+theorem scan_nonimp (drop : List String) : ∀ (ys : List Top) (i : Nat) (acc : List Top × Nat),
+    (∀ t ∈ ys, isImp t = false) → fwdScanImports drop ys i acc = acc := by
+  intro ys
+  induction ys with
+  | nil => intro i acc _; obtain ⟨k, l⟩ := acc; simp [fwdScanImports]
+  | cons t rest ih =>
+    intro i acc h
+    rw [scan_cons, scanStep_nonimp drop acc i t (h t (by simp))]
+    exact ih (i + 1) acc (fun u hu => h u (by simp [hu]))
+
+theorem scan_append (drop : List String) : ∀ (xs ys : List Top) (i : Nat) (acc : List Top × Nat),
+    fwdScanImports drop (xs ++ ys) i acc = fwdScanImports drop ys (i + xs.length) (fwdScanImports drop xs i acc) := by
+  intro xs
+  induction xs with
+  | nil => intro ys i acc; obtain ⟨k, l⟩ := acc; simp [fwdScanImports]
+  | cons t rest ih =>
+    intro ys i acc
+    rw [List.cons_append, scan_cons, scan_cons, ih]
+    simp [Nat.add_assoc, Nat.add_comm 1]
+
+/-- the scan keeps import statements only, and reports the index of the last one -/
+theorem scan_spec (drop : List String) : ∀ (xs : List Top) (i : Nat) (acc : List Top × Nat),
+    (∀ u ∈ (fwdScanImports drop xs i acc).1, u ∈ acc.1 ∨ isImp u = true) ∧
+    ((fwdScanImports drop xs i acc).2 = acc.2 ∨
+      (i ≤ (fwdScanImports drop xs i acc).2 ∧ (fwdScanImports drop xs i acc).2 < i + xs.length)) ∧
+    (HasImp xs → i ≤ (fwdScanImports drop xs i acc).2 ∧ (fwdScanImports drop xs i acc).2 < i + xs.length) := by
+  intro xs
+  induction xs with
+  | nil =>
+    intro i acc
+    obtain ⟨k, l⟩ := acc
+    simp only [fwdScanImports]
+    exact ⟨fun u hu => .inl hu, by simp, fun ⟨t, ht, _⟩ => by simp at ht⟩
+  | cons t rest ih =>
+    intro i acc
+    rw [scan_cons]
+    obtain ⟨ih1, ih2, ih3⟩ := ih (i + 1) (scanStep drop acc i t)
+    by_cases h : isImp t = true
+    · obtain ⟨hl, hk⟩ := scanStep_imp drop acc i t h
+      refine ⟨?_, ?_, ?_⟩
+      · intro u hu
+        rcases ih1 u hu with h1 | h1
+        · exact hk u h1
+        · exact .inr h1
+      · right
+        rcases ih2 with h2 | ⟨h2, h3⟩
+        · rw [h2, hl]; simp
+        · simp only [List.length_cons]; omega
+      · intro _
+        rcases ih2 with h2 | ⟨h2, h3⟩
+        · rw [h2, hl]; simp
+        · simp only [List.length_cons]; omega
+    · have h' : isImp t = false := by simpa using h
+      rw [scanStep_nonimp drop acc i t h'] at ih1 ih2 ih3 ⊢
+      refine ⟨ih1, ?_, ?_⟩
+      · rcases ih2 with h2 | ⟨h2, h3⟩
+        · exact .inl h2
+        · right; simp only [List.length_cons]; omega
+      · rintro ⟨u, hu, hiu⟩
+        rcases List.mem_cons.mp hu with rfl | hu'
+        · rw [h'] at hiu; cases hiu
+        · have := ih3 ⟨u, hu', hiu⟩
+          simp only [List.length_cons]; omega
+
+theorem isImp_noClass {t : Top} (h : isImp t = true) : t.classDef? = none := by
+  cases t with
+  | simple sm => rfl
+  | classDef _ => simp [isImp] at h
+  | funcDef _ => rfl
+  | ifStmt _ _ _ => rfl
+
+/-- `_update_imports` on the assembled client module -/
+theorem fwdUpdateImports_inv (st : FwdState) (pre : List Top) (g : Method) (c : ClassDef) (M' : Module)
+    (hn : NoClass pre) (hi : HasImp pre)
+    (h : fwdUpdateImports st { body := pre ++ [.funcDef g, .classDef c] } = .ok M') :
+    ∃ pre', M'.body = pre' ++ [.funcDef g, .classDef c] ∧ NoClass pre' ∧ HasImp pre' := by
+  unfold fwdUpdateImports at h
+  simp only [bind_ok, pure_eq_ok] at h
+  split at h
+  · simp only [Except.ok.injEq] at h
+    subst h
+    exact ⟨pre, rfl, hn, hi⟩
+  · rename_i hdrop
+    cases hg : fwdTypeCheckingImports st with
+    | error e => simp [hg, bind, Except.bind] at h
+    | ok groups =>
+      simp only [hg, bind_ok, Except.ok.injEq] at h
+      subst h
+      generalize hd : (st.inputAndReturnTypes ++ st.importedInMethod.filter (fun n => !st.inputAndReturnTypes.contains n)) = drop
+      have htail : ∀ t ∈ [Top.funcDef g, Top.classDef c], isImp t = false := by
+        intro t ht; simp at ht; rcases ht with rfl | rfl <;> rfl
+      have hscan : fwdScanImports drop (pre ++ [.funcDef g, .classDef c]) 0 ([], 0) = fwdScanImports drop pre 0 ([], 0) := by
+        rw [scan_append, scan_nonimp drop _ _ _ htail]
+      obtain ⟨hk, _, hl⟩ := scan_spec drop pre 0 ([], 0)
+      have hlast := hl hi
+      simp only [hscan]
+      have hle : (fwdScanImports drop pre 0 ([], 0)).2 + 1 ≤ pre.length := by omega
+      rw [List.drop_append_of_le_length hle]
+      refine ⟨(fwdScanImports drop pre 0 ([], 0)).1 ++
+          [.simple (.importFrom { module := some "typing", names := [("TYPE_CHECKING", none)], level := 0 }),
+           .ifStmt (.name "TYPE_CHECKING") (groups.map (fun (g : String × List String) =>
+              Simple.importFrom { module := some g.1, names := g.2.map (fun n => (n, none)), level := 0 })) 0] ++
+          pre.drop ((fwdScanImports drop pre 0 ([], 0)).2 + 1), by simp [List.append_assoc], ?_, ?_⟩
+      · intro t ht
+        rcases List.mem_append.mp ht with h1 | h1
+        · rcases List.mem_append.mp h1 with h2 | h2
+          · rcases hk t h2 with h3 | h3
+            · simp at h3
+            · exact isImp_noClass h3
+          · simp at h2; rcases h2 with rfl | rfl <;> rfl
+        · exact hn t (List.mem_of_mem_drop h1)
+      · exact ⟨.simple (.importFrom { module := some "typing", names := [("TYPE_CHECKING", none)], level := 0 }), by simp, rfl⟩
+
+
+/-- ClientForwardRefs on the client module: the class keeps its place, its methods evolve -/
+theorem fwd_module_inv (st st' : FwdState) (M M' : Module) (c : ClassDef) (hinv : ClientInv M c)
+    (h : fwdClientModule st M = .ok (st', M')) : ∃ c', ClientInv M' c' ∧ ClassRel c c' := by
+  have hfc := firstClass_of_inv hinv
+  obtain ⟨pre, g, hb, hn, hi⟩ := hinv
+  unfold fwdClientModule at h
+  simp only [bind_ok, pure_eq_ok] at h
+  rw [hfc] at h
+  simp only at h
+  rw [hb, mapFirstClassM_pre _ g c pre _ hn] at h
+  cases hm : mapMethodsM fwdMethod (fwdStoreImported st (pre ++ [.funcDef g, .classDef c])) c.body with
+  | error e => simp [hm, bind, Except.bind] at h
+  | ok r =>
+    have hrel : ItemsRel MethodEvolves c.body r.2 :=
+      mapMethodsM_rel fwdMethod MethodEvolves
+        (fun a b m m' hs => .fwd a b (.refl m) hs) c.body _ r.1 r.2 (by rw [hm])
+    have hcr : ClassRel c { c with body := r.2 } := ⟨rfl, rfl, hrel⟩
+    simp only [hm, bind_ok, pure_eq_ok] at h
+    cases hu : fwdUpdateImports r.1 { body := pre ++ [.funcDef g, .classDef { c with body := r.2 }] } with
+    | error e => simp [hu, bind, Except.bind] at h
+    | ok M2 =>
+      simp only [hu, bind_ok, Except.ok.injEq, Prod.mk.injEq] at h
+      obtain ⟨_, rfl⟩ := h
+      obtain ⟨pre', hb', hn', hi'⟩ := fwdUpdateImports_inv r.1 pre g _ M2 hn hi hu
+      exact ⟨_, ⟨pre', g, hb', hn', hi'⟩, hcr⟩
+
+/-- one bundled plugin on the hook `generate_client_module` -/
+theorem step_client_module (c : Call) (hc : c.hook = "generate_client_module") (p p' : PState) (M : Module) (cls : ClassDef)
+    (y : Payload) (hinv : ClientInv M cls) (h : PState.step c p (.module M) = .ok (p', y)) :
+    ∃ M' cls', y = .module M' ∧ ClientInv M' cls' ∧ ClassRel cls cls' := by
+  cases p with
+  | shorter st =>
+    simp only [PState.step, shorterStep, hc] at h
+    cases hx : shorterClientModule st M with
+    | error e => simp [hx, bind, Except.bind] at h
+    | ok r =>
+      simp [hx, bind, Except.bind, pure, Except.pure] at h
+      obtain ⟨cls', h1, h2⟩ := shorter_module_inv st r.1 M r.2 cls hinv (by rw [hx])
+      exact ⟨r.2, cls', h.2.symm, h1, h2⟩
+  | extract st =>
+    simp only [PState.step, extractStep, hc] at h
+    simp [bind, Except.bind, pure, Except.pure] at h
+    exact ⟨_, cls, h.2.symm, extract_module_inv st M cls hinv, ClassRel.refl cls⟩
+  | fwd st =>
+    simp only [PState.step, fwdStep, hc] at h
+    cases hx : fwdClientModule st M with
+    | error e => simp [hx, bind, Except.bind] at h
+    | ok r =>
+      simp [hx, bind, Except.bind, pure, Except.pure] at h
+      obtain ⟨cls', h1, h2⟩ := fwd_module_inv st r.1 M r.2 cls hinv (by rw [hx])
+      exact ⟨r.2, cls', h.2.symm, h1, h2⟩
+  | noReimports =>
+    simp only [PState.step, noReimportsStep, hc, pure, Except.pure, Except.ok.injEq, Prod.mk.injEq] at h
+    exact ⟨M, cls, by rw [← h.2]; simp, hinv, ClassRel.refl cls⟩
+  | identity =>
+    simp only [PState.step, pure, Except.pure, Except.ok.injEq, Prod.mk.injEq] at h
+    exact ⟨M, cls, h.2.symm, hinv, ClassRel.refl cls⟩
+
+/-- any list of bundled plugins, in any order, with any state, on the hook `generate_client_module` -/
+theorem chain_client_module (c : Call) (hc : c.hook = "generate_client_module") :
+    ∀ (ps ps' : List PState) (M : Module) (cls : ClassDef) (y : Payload), ClientInv M cls →
+      applyAll PState.step c ps (.module M) = .ok (ps', y) →
+      ∃ M' cls', y = .module M' ∧ ClientInv M' cls' ∧ ClassRel cls cls' := by
+  intro ps
+  induction ps with
+  | nil =>
+    intro ps' M cls y hinv h
+    simp [applyAll, List.foldlM, pure, Except.pure] at h
+    exact ⟨M, cls, h.2.symm, hinv, ClassRel.refl cls⟩
+  | cons p rest ih =>
+    intro ps' M cls y hinv h
+    rw [applyAll_cons] at h
+    cases hs : PState.step c p (.module M) with
+    | error e => rw [hs] at h; cases h
+    | ok r =>
+      rw [hs] at h
+      simp only [bind_ok] at h
+      obtain ⟨M1, cls1, hy1, hinv1, hrel1⟩ := step_client_module c hc p r.1 M cls r.2 hinv (by rw [hs])
+      rw [hy1] at h
+      cases hr : applyAll PState.step c rest (.module M1) with
+      | error e => rw [hr] at h; cases h
+      | ok r' =>
+        rw [hr] at h
+        simp only [bind_ok, pure_eq_ok, Except.ok.injEq, Prod.mk.injEq] at h
+        obtain ⟨M2, cls2, hy2, hinv2, hrel2⟩ := ih r'.1 M1 cls1 r'.2 hinv1 (by rw [hr])
+        exact ⟨M2, cls2, by rw [← h.2, hy2], hinv2, ClassRel.trans hrel1 hrel2⟩
+
+
+theorem ItemsRel.mono {R R' : Method → Method → Prop} (h : ∀ m m', R m m' → R' m m') :
+    ∀ {x y : List ClassItem}, ItemsRel R x y → ItemsRel R' x y := by
+  intro x y hr
+  induction hr with
+  | nil => exact .nil
+  | method hm _ ih => exact .method (h _ _ hm) ih
+  | other _ ih => exact .other ih
+
+/-- what a method of the generated shape can look like after any chain of bundled plugins ran over
+    the client module: same name; same operation source, operation name, variables expression,
+    validated class and kind; projections only appended, imports only prepended -/
+def MethodPreserved (m m' : Method) : Prop :=
+  m'.name = m.name ∧ ∀ s, m.body = bodyOf s → ∃ s', m'.body = bodyOf s' ∧
+    s'.op = s.op ∧ s'.opName = s.opName ∧ s'.variables = s.variables ∧ s'.varsVar = s.varsVar ∧
+    s'.retClass = s.retClass ∧ s'.kwargs = s.kwargs ∧ sameKind s.tail s'.tail ∧
+    (∃ fs, s'.proj = s.proj ++ fs) ∧ (∃ is, s'.imports = is ++ s.imports)
+
+theorem nodeAndClass_bind_name (st st' : ShorterState) (m m' : Method) (x : M (Option (Ex × List String × String)))
+    (k : Ex → List String → String → M (ShorterState × Method))
+    (hk : ∀ a b f s2 m2, k a b f = .ok (s2, m2) → m2.name = m.name)
+    (h : (x >>= fun r => match r with
+            | none => pure (st, m)
+            | some (a, b, f) => k a b f) = .ok (st', m')) : m'.name = m.name := by
+  cases x with
+  | error e => cases h
+  | ok r =>
+    cases r with
+    | none => simp [bind_ok, pure_eq_ok] at h; rw [← h.2]
+    | some t => obtain ⟨a, b, f⟩ := t; exact hk a b f st' m' h
+
+theorem shorter_keeps_name (st st' : ShorterState) (m m' : Method) (h : shorterModifyMethod st m = .ok (st', m')) :
+    m'.name = m.name := by
+  have same : ∀ {a b : ShorterState} {x y : Method}, (pure (a, x) : M (ShorterState × Method)) = .ok (b, y) → y.name = x.name := by
+    intro a b x y hh; simp [pure, Except.pure] at hh; rw [← hh.2]
+  unfold shorterModifyMethod at h
+  split at h
+  · unfold shorterQueryMutation at h
+    split at h
+    · refine nodeAndClass_bind_name st st' m m' _ _ ?_ h
+      intro a b f s2 m2 hk
+      simp [pure, Except.pure] at hk
+      rw [← hk.2]
+    · exact same h
+  · unfold shorterSubscription at h
+    split at h
+    · refine nodeAndClass_bind_name st st' m m' _ _ ?_ h
+      intro a b f s2 m2 hk
+      split at hk
+      · cases hk
+      · split at hk
+        · simp [pure, Except.pure] at hk; rw [← hk.2]
+        · exact same hk
+    · exact same h
+  · exact same h
+
+theorem fwd_keeps_name (st st' : FwdState) (m m' : Method) (h : fwdMethod st m = .ok (st', m')) : m'.name = m.name := by
+  unfold fwdMethod at h
+  simp only [bind_ok, pure_eq_ok] at h
+  split at h
+  · cases h
+  · split at h
+    · simp at h; rw [← h.2]
+    · split at h
+      · cases h
+      · simp at h; rw [← h.2]
+
+theorem MethodEvolves.name {m m' : Method} (h : MethodEvolves m m') : m'.name = m.name := by
+  induction h with
+  | refl => rfl
+  | shorter st st' _ hs ih => exact (shorter_keeps_name st st' _ _ hs).trans ih
+  | fwd st st' _ hs ih => exact (fwd_keeps_name st st' _ _ hs).trans ih
+
+theorem MethodEvolves.preserved {m m' : Method} (h : MethodEvolves m m') : MethodPreserved m m' := by
+  refine ⟨h.name, fun s hb => ?_⟩
+  obtain ⟨_, s', hb', hev⟩ := h.shape s hb
+  exact ⟨s', hb', hev.preserves⟩
+
+
+/-! ### `_store_imported_classes`: the module text recorded for a locally imported name -/
+
+/-- one statement of the loop -/
+def storeStep (st : FwdState) (t : Top) : FwdState :=
+  match t.importFrom? with
+  | some i =>
+    match i.module with
+    | some mname =>
+      if i.level != 1 && !startsWithDot mname then st
+      else i.names.foldl (fun st (n : String × Option String) =>
+        { st with importedClasses := aset n.1 (dotted i.level mname) st.importedClasses }) st
+    | none => st
+  | none => st
+
+theorem fwdStoreImported_eq (st : FwdState) (body : List Top) : fwdStoreImported st body = body.foldl storeStep st := rfl
+
+theorem names_fold_lookup (src : String) (n : String) : ∀ (names : List (String × Option String)) (st : FwdState),
+    alookup n (names.foldl (fun st (x : String × Option String) =>
+        { st with importedClasses := aset x.1 src st.importedClasses }) st).importedClasses =
+      if names.any (fun x => x.1 == n) then some src else alookup n st.importedClasses := by
+  intro names
+  induction names with
+  | nil => intro st; simp
+  | cons x rest ih =>
+    intro st
+    simp only [List.foldl_cons, List.any_cons]
+    rw [ih]
+    by_cases hr : rest.any (fun x => x.1 == n) = true
+    · simp [hr]
+    · simp only [hr, Bool.or_false]
+      by_cases hx : x.1 = n
+      · subst hx; simp [alookup_aset_self]
+      · have : (x.1 == n) = false := by simpa using hx
+        simp [this, alookup_aset_other x.1 n _ _ hx]
+
+/-- does this statement (re)bind `n` in `imported_classes`, and to which module text -/
+def storeTarget (n : String) (t : Top) : Option String :=
+  match t.importFrom? with
+  | some i =>
+    match i.module with
+    | some mname =>
+      if i.level != 1 && !startsWithDot mname then none
+      else if i.names.any (fun x => x.1 == n) then some (dotted i.level mname) else none
+    | none => none
+  | none => none
+
+theorem storeStep_lookup (n : String) (st : FwdState) (t : Top) :
+    alookup n (storeStep st t).importedClasses = (storeTarget n t).orElse (fun _ => alookup n st.importedClasses) := by
+  unfold storeStep storeTarget
+  cases t.importFrom? with
+  | none => simp
+  | some i =>
+    simp only
+    cases hm : i.module with
+    | none => simp
+    | some mname =>
+      simp only
+      by_cases hc : (i.level != 1 && !startsWithDot mname) = true
+      · simp [hc]
+      · simp only [hc, Bool.false_eq_true, ↓reduceIte]
+        rw [names_fold_lookup]
+        by_cases ha : (i.names.any fun x => x.1 == n) = true <;> simp [ha]
+
+/-- every local import statement that mentions `n` names the module text `src`, and at least one
+    does: `imported_classes[n] = src` after `_store_imported_classes`, whatever was recorded before -/
+theorem fwd_store_records (n src : String) : ∀ (body : List Top) (st : FwdState),
+    (∀ t ∈ body, storeTarget n t = none ∨ storeTarget n t = some src) →
+    (alookup n st.importedClasses = some src ∨ ∃ t ∈ body, storeTarget n t = some src) →
+    alookup n (fwdStoreImported st body).importedClasses = some src := by
+  intro body
+  induction body with
+  | nil =>
+    intro st _ h
+    rcases h with h | ⟨t, ht, _⟩
+    · exact h
+    · simp at ht
+  | cons t rest ih =>
+    intro st hall h
+    rw [fwdStoreImported_eq, List.foldl_cons, ← fwdStoreImported_eq]
+    apply ih (storeStep st t) (fun u hu => hall u (by simp [hu]))
+    rw [storeStep_lookup]
+    rcases hall t (by simp) with ht | ht
+    · rw [ht]
+      simp only [Option.orElse]
+      rcases h with h | ⟨u, hu, hus⟩
+      · exact .inl h
+      · rcases List.mem_cons.mp hu with rfl | hu'
+        · rw [ht] at hus; cases hus
+        · exact .inr ⟨u, hu', hus⟩
+    · rw [ht]; exact .inl rfl
 
 end Ariadne.C15
